@@ -38,6 +38,30 @@ def init(b, mem):
     memory_id = mem
 
 
+def _verif_point(stripe, phase):
+    """
+    Verification hook: inactive unless the environment has AEGEAN_VERIF=1.
+    AEGEAN_VERIF_BANE_PLAN is a json dict with optional keys
+    trace (file to append "time stripe phase" lines to),
+    delay ({"stripe:phase": seconds}) and fault ("stripe:phase").
+    """
+    if os.environ.get('AEGEAN_VERIF') != '1':
+        return
+    import json
+    import time
+    plan = json.loads(os.environ.get('AEGEAN_VERIF_BANE_PLAN', '{}'))
+    key = "{0}:{1}".format(stripe, phase)
+    if plan.get('trace'):
+        with open(plan['trace'], 'a') as out:
+            out.write("{0:.6f} {1} {2}\n".format(
+                time.monotonic(), stripe, phase))
+    if key in plan.get('delay', {}):
+        time.sleep(plan['delay'][key])
+    if plan.get('fault') == key:
+        raise RuntimeError("AEGEAN_VERIF injected fault at {0}".format(key))
+    return
+
+
 def sigmaclip(arr, lo, hi, reps=10):
     """
     Perform sigma clipping on an array, ignoring non finite values.
@@ -160,6 +184,7 @@ def sigma_filter(filename, region, step_size, box_size, shape, domask,
     """
 
     ymin, ymax = region
+    _verif_point(ymin, 'start')
     logging.debug('rows {0}-{1} starting at {2}'.format(ymin,
                   ymax, strftime("%Y-%m-%d %H:%M:%S", gmtime())))
 
@@ -249,7 +274,9 @@ def sigma_filter(filename, region, step_size, box_size, shape, domask,
     logging.debug(" ... done writing bkg")
 
     # wait for all to complete
+    _verif_point(ymin, 'wait1')
     barrier.wait()
+    _verif_point(ymin, 'pass2')
 
     logging.debug("background subtraction")
     data -= ibkg[data_row_min:data_row_max, :]
@@ -275,7 +302,9 @@ def sigma_filter(filename, region, step_size, box_size, shape, domask,
 
     if domask:
         # wait for all to complete
+        _verif_point(ymin, 'wait2')
         barrier.wait()
+        _verif_point(ymin, 'mask')
 
         logging.debug("applying mask")
         mask = ~np.isfinite(
@@ -284,6 +313,7 @@ def sigma_filter(filename, region, step_size, box_size, shape, domask,
         ibkg[ymin:ymax, :][mask] = np.nan
         irms[ymin:ymax, :][mask] = np.nan
         logging.debug("... done applying mask")
+    _verif_point(ymin, 'done')
     logging.debug('rows {0}-{1} finished at {2}'.format(ymin,
                   ymax, strftime("%Y-%m-%d %H:%M:%S", gmtime())))
     return
